@@ -26,6 +26,11 @@ func main() {
 	case "c12":
 		err = c12Main(*seed, *n, *out, *replay)
 	case "interp":
+		if os.Getenv("VERIF_CHILD") == "" {
+			err = supervise(*out)
+			break
+		}
+		superInit()
 		if *srcfile != "" {
 			err = interpSrcFile(*srcfile, *out)
 		} else {
